@@ -181,6 +181,8 @@ def gen_case(rng, tier, ctx, i):
         ctx.count("count:bounded-sweep-formulas")
         return {"recipe": recipes.strip(c04.next_sweep(i, ctx.seed)), "seed": rng.getrandbits(32)}
     o = common.varied_opts(rng, tier)
+    if rng.random() < 0.05:
+        return special_case(rng, ctx)
     if rng.random() < 0.06:
         from . import confgen
         ctx.count("count:configurator-models")
@@ -196,12 +198,45 @@ def gen_case(rng, tier, ctx, i):
     return common.with_twins(rng, {"recipe": rec, "seed": rng.getrandbits(32)})
 
 
+def special_case(rng, ctx):
+    """(a) thresholds of large magnitude met / missed by exactly one; (b) sub-propositions without any sub-proposition of their own"""
+    if rng.random() < 0.5:
+        n = rng.randint(2, 5)
+        wide = rng.choice([(0, 40000), (-32768, 32767), (0, 10 ** 7), (-10 ** 6, 10 ** 6)])
+        ids = rng.sample("abcdefgh", n)
+        x = {i: rng.randint(max(wide[0], 0) + wide[1] // 2, wide[1]) for i in ids}
+        s_ = sum(x.values())
+        sign = rng.choice([1, -1])
+        delta = rng.choice([0, 1, -1, 2])
+        node = {"k": "AtLeast", "id": rng.choice([None, "BIG"]), "args": [{"k": "var", "id": i, "b": list(wide)} for i in ids], "value": sign * s_ + delta, "sign": sign}
+        if rng.random() < 0.3:
+            node = {"k": "AtMost", "id": rng.choice([None, "BIG"]), "args": node["args"], "value": s_ + rng.choice([0, -1, 1])}
+        rec = node if rng.random() < 0.5 else {"k": rng.choice(["All", "Any", "Imply"]), "id": None, "args": [node, {"k": "var", "id": "q", "b": [0, 1]}]}
+        x["q"] = rng.randint(0, 1)
+        ctx.count("count:large-threshold-boundary")
+        return {"recipe": rec, "seed": rng.getrandbits(32), "interps": [x, dict(x, **{ids[0]: x[ids[0]] - 1}), dict(x, **{ids[-1]: max(wide[0], x[ids[-1]] - 2)})]}
+    empty = lambda: rng.choice([{"k": "All", "id": rng.choice([None, "E"]), "args": []}, {"k": "Any", "id": rng.choice([None, "E"]), "args": []},
+                                {"k": "AtLeast", "id": None, "args": [], "value": rng.choice([0, 1, -1]), "sign": rng.choice([1, -1])},
+                                {"k": "AtMost", "id": None, "args": [], "value": rng.choice([0, 1])}])
+    leaf = lambda i: {"k": "var", "id": i, "b": [0, 1]}
+    e = empty()
+    rec = rng.choice([lambda: {"k": "All", "id": "A", "args": [e, leaf("x")]}, lambda: {"k": "Any", "id": None, "args": [e, leaf("x"), leaf("y")]},
+                      lambda: {"k": "Imply", "id": None, "args": [e, leaf("x")]}, lambda: {"k": "AtMost", "id": None, "args": [e, leaf("x")], "value": 0},
+                      lambda: {"k": "Imply", "id": None, "args": [{"k": "All", "id": None, "args": [leaf("x")]}, e]}])()
+    ctx.count("count:sub-proposition-without-children")
+    return {"recipe": rec, "seed": rng.getrandbits(32)}
+
+
 def _run_one(case, ctx):
     rng = random.Random(case["seed"])
     m0 = recipes.fresh(case["recipe"])
     if adapters.is_leaf(m0):
         raise monitor.OutOfScope()
     graph, top, info = common.domain(m0, allow_prefixed=True)
+    for x_ in case.get("interps", []):
+        x_ = {k_: v_ for k_, v_ in x_.items() if k_ in graph}
+        ctx.call("evaluate_propositions", recipes.fresh(case["recipe"]).evaluate_propositions, common.interp(rng, x_))
+        ctx.call("evaluate", recipes.fresh(case["recipe"]).evaluate, dict(x_))
     if graph[top]["b"][0] == graph[top]["b"][1] and False:
         raise monitor.OutOfScope()
     ids, bounds = common.leaf_box(graph, top)
